@@ -32,6 +32,7 @@ EXPLANATION = (
     "dominates the data return of a segment read; R6 no residue: SdoClient rebinds only `responses` outside __init__, "
     "stream state lives in per-open() objects, both server initiate handlers reset toggle and buffer together; R8 structural assumptions shared by all properties: no class-level mutable object is mutated in place by instances, no method re-runs the constructor, logging statements cannot raise (typed eager formatting, divisions), no mutable default argument is kept or mutated, no new truth-value test of a None-able number, a look-up memory the pinned tree does not have is keyed by all its inputs (arithmetic keys folded over a grid of addresses) and, on the serving side, emptied somewhere."
     ' R1 also: outside the retry loop no handler around a request/response exchange completes normally without a recovery call; R6 skips counters / time stamps that nothing in the package reads.'
+    ' R4 also: the upload ends on the c bit of the validated segment response only (_done is not set from an announced size); R6 also: what a completed download stored is an immutable copy of the payload (store clause shared with C02.R11).'
 )
 ASSUMPTIONS = [
     "not decided: running the disturbances (lost/duplicated/stale frames at every step) -- only the guards that make "
